@@ -191,6 +191,20 @@ def cli_case(case, env):
         if b"\0" in r[1]:
             env.viol("C14:cli:mode-%s:nul-in-output" % name, "NUL byte in stdout of rg %s" % " ".join(extra),
                      {"kind": "cli", "argv": base + extra, "input": esc(data[:4000]), "stdout": esc(r[1][:2000])})
+    # modes that also report files WITHOUT a match: a traversed file in which
+    # a NUL byte was met is dropped there too (the incremental reader examines
+    # every byte)
+    for name, extra in (("files-without-match", ["--files-without-match"]),
+                        ("count-include-zero", ["-c", "--include-zero"]),
+                        ("count-matches-include-zero", ["--count-matches", "--include-zero"])):
+        r = run(["--no-mmap"] + extra + ["d"])
+        if r is None:
+            continue
+        if b"f.bin" in r[1]:
+            env.viol("C14:cli:mode-%s:binary-file-reported" % name,
+                     "rg --no-mmap %s d reports the traversed binary file: %s" % (" ".join(extra), esc(r[1][:200])),
+                     {"kind": "cli", "argv": base + ["--no-mmap"] + extra + ["d"], "input": esc(data[:4000]),
+                      "nuls": nuls, "stdout": esc(r[1][:2000])})
     env.sample({"argv": ["rg"] + base + ["{d | d/f.bin | --binary d | - }"], "nul_positions": nuls,
                 "input_len": len(data), "text_mode_lines": len(R)})
 
